@@ -197,6 +197,7 @@ def run(chk):
     chk.rule("R7", "SqlImpl.__new__ maps every dialect to an existing SqlImpl subclass that declares backend_name")
     chk.rule("R8", "no operator is registered twice in one store for the same signature (later silently wins / assert)")
     chk.rule("R9", "optional slots of AST nodes (`X | None`) are dereferenced / passed to non-optional parameters only under an `is not None` test")
+    chk.rule("R10", "SQL implementations that use a Const parameter as a Python value (autoescape pattern, Python-level test, int()) are only reached with Python values")
     chk.rule("A12", "no ordered output in backend/ or pipe/ depends on the iteration order of a set")
 
     chk.floor("registry", "registrations", len(regs), 240)
@@ -495,5 +496,70 @@ def run(chk):
     # ---- R9 optional-slot discipline ---------------------------------------------
     optional.run_rule(chk, "R9", sym)
 
+    # ---- R10 python-valued const parameters ---------------------------------------------
+    _python_valued_params(chk, m)
+
     # ---- A12 determinism -------------------------------------------------------
     determinism.run_rule(chk, "A12", scope=("backend.", "pipe.", "tree.verbs", "tree.ast"))
+
+
+def _python_valued_params(chk, m):
+    """An operator parameter declared Const accepts any constant *expression* (`pdt.lit("a") + "%"`).  The SQL
+    dispatcher unwraps only LiteralCol arguments to Python values; every other constant expression is compiled to a
+    SQL expression.  Implementations that need the Python value (a LIKE pattern for autoescape=True, a Python-level
+    `if by > 0`, int(n)) then fail with TypeError instead of a result or NotSupportedError."""
+    cat = m.cat
+    sites = []
+    for r in m.regs:
+        if r.store == "PolarsImpl" or isinstance(r.func, ast.Lambda):
+            continue
+        op = cat.ops.get(r.opvar)
+        if op is None:
+            continue
+        params = [a.arg for a in r.func.args.args]
+        const_pos = set()
+        for s_ in op.signatures:
+            for i, t in enumerate(s_.types):
+                if t.cls == "Const":
+                    const_pos.add(i)
+            if s_.is_vararg and s_.types and s_.types[-1].cls == "Const":
+                const_pos.add(len(s_.types) - 1)
+        cparams = {params[i] for i in const_pos if i < len(params)}
+        if not cparams:
+            continue
+        for n in ast.walk(r.func):
+            why = None
+            if isinstance(n, ast.Call) and isinstance(n.func, ast.Attribute) and n.func.attr in ("contains", "startswith", "endswith", "like", "ilike"):
+                ae = kwarg(n, "autoescape")
+                if isinstance(ae, ast.Constant) and ae.value is True and n.args and isinstance(n.args[0], ast.Name) and n.args[0].id in cparams:
+                    why = f"`{n.args[0].id}` is the pattern of {n.func.attr}(.., autoescape=True), which requires a str"
+            elif isinstance(n, (ast.If, ast.IfExp, ast.While)):
+                used = {x.id for x in ast.walk(n.test) if isinstance(x, ast.Name)} & cparams
+                # `x is None` style tests do not need the value
+                plain_none = isinstance(n.test, ast.Compare) and all(isinstance(c, ast.Constant) and c.value is None for c in n.test.comparators)
+                if used and not plain_none:
+                    why = f"`{sorted(used)[0]}` decides a Python-level branch (`{norm(n.test)[:50]}`)"
+            elif isinstance(n, ast.Call) and isinstance(n.func, ast.Name) and n.func.id in ("int", "range", "float", "str", "len") and n.args and isinstance(n.args[0], ast.Name) and n.args[0].id in cparams:
+                why = f"`{n.args[0].id}` is passed to {n.func.id}()"
+            if why:
+                sites.append((r, n, why))
+    chk.extra_cov["python_valued_const_param_sites"] = len(sites)
+    chk.floor("R10", "implementation sites that need the Python value of a Const parameter", len(sites), 8)
+    sql = chk.repo.mod("backend.sql")
+    cce = sql.func("SqlImpl.compile_col_expr")
+    # does the dispatcher refuse / fold non-literal constant expressions for const parameters?
+    handled = False
+    for n in ast.walk(cce):
+        if isinstance(n, ast.Raise) and n.exc is not None:
+            nm = ((dotted(n.exc.func) if isinstance(n.exc, ast.Call) else dotted(n.exc)) or "").split(".")[-1]
+            if nm in DOCUMENTED_REFUSALS:
+                from ..flow import dominating_tests, preceding_guards
+
+                tests = " ".join(norm(t) for t, _p in list(dominating_tests(n, cce)) + list(preceding_guards(n, cce)))
+                if "compile_literals" in tests:
+                    handled = True
+    ex = sites[0] if sites else None
+    chk.ob("R10", sql, cce, "const parameters reach SQL implementations as Python values", handled or not sites,
+           f"SqlImpl.compile_col_expr unwraps only LiteralCol arguments of Const parameters (`compile_literals=False`); any other constant "
+           f"expression is compiled to SQL, but {len(sites)} implementation sites need the Python value, e.g. "
+           f"{ex[0].func.name}@{ex[0].module.rel}: {ex[2]}: `t.s.str.contains(pdt.lit('a') + 'b')` is accepted and then fails with TypeError" if ex else "")  # fmt: skip
